@@ -286,6 +286,14 @@ class Classifier:
                         return Sp(s.s, True)
                 return s
             return None
+        if op == "binop" and t.name in ("+", "-") and len(t.args) == 2:
+            # an index array shifted by an offset is NOT an index into the same space any more (and a global edge number minus
+            # the first edge of its type is the rank within the type only when the types are stored block-wise)
+            a, b = self.space(t.args[0], kc, depth + 1), self.space(t.args[1], kc, depth + 1)
+            if (a is None) != (b is None):
+                s_ = a or b
+                return Sp(s_.s + "+offset", s_.sentinel, "index arithmetic")
+            return None
         if op == "ifexp":
             kt = key_test(t.args[0])
             if kt is not None:
